@@ -834,6 +834,17 @@ func (ex *Exec) checkPost(fr *Frame, rv []Val, ins *ssa.Return) {
 			env.vars[k] = v
 		}
 	}
+	// ghost assignments at return (ghost state has no effect on the program; it only names facts for callers)
+	for _, gd := range c.GhostDefs {
+		lhsE, rhsE := gd[0].E, gd[1].E
+		if lhsE.K != ESel || !strings.HasPrefix(lhsE.Name, "$") {
+			unsup("ghostdef: left side must be a ghost field")
+		}
+		ex.havocTarget(lhsE, env, "ghostdef")
+		val := ex.softBool(rhsE, env)
+		cur := ex.asBool(ex.eval(lhsE, env))
+		ex.assume(ex.ts.Eq(cur, val))
+	}
 	for i, en := range c.Ensures {
 		name := fmt.Sprintf("%03d", i)
 		// postconditions are judged independently of each other (no assume after assert)
